@@ -172,6 +172,10 @@ pub fn exercise(bytes: &[u8], tolerant: bool, cached: bool, password: &[u8]) -> 
         let typed: Vec<(String, u64)> = TYPED.lock().map(|t| t.clone()).unwrap_or_default();
         for (model, id) in typed {
             let pr = PlainRef { id, gen: 0 };
+            // first as a plain dictionary (a cached document then holds the object under that type), then as the model
+            // through Resolve::get: the typed load finds a cache entry of another type
+            o.rec(&format!("typed[{}].as-dictionary", model), guarded(|| r.get::<pdf::primitive::Dictionary>(Ref::from_id(id)).map(|_| ())));
+            o.rec(&format!("typed[{}].get", model), guarded(|| crate::registry::get(&model, &r, id).unwrap_or(Ok(()))));
             o.rec(&format!("typed[{}].direct", model), guarded(|| crate::registry::load(&model, Primitive::Reference(pr), &r).unwrap_or(Ok(()))));
             o.rec(&format!("typed[{}].resolved", model), guarded(|| {
                 let p = r.resolve(pr)?;
